@@ -48,6 +48,10 @@ package server
 //@     where $req != nil && $req.Operation == operation && $req.Bucket != nil && *$req.Bucket == bucketName.String() &&
 //@         (!ok || $req.Key == nil || *$req.Key == objectKey.String())
 //@ effect[C33:website-never-mutates] every s.storage.$M(__) where $M == "GetObject" || $M == "HeadObject" || $M == "GetBucketWebsiteConfiguration"
+//@ effect[C31:error-document-only-for-allowed-requests] every s.serveErrorDocument(__)
+//@     needs before s.requestAuthorizer.AuthorizeRequest(_, _) -> ($allowed, $aerr) where $allowed && $aerr == nil
+//@ effect[C31:nothing-but-the-configuration-read-before-the-verdict] every s.storage.$M(__) if $M != "GetBucketWebsiteConfiguration"
+//@     needs before s.requestAuthorizer.AuthorizeRequest(_, _) -> ($allowed, $aerr) where $allowed && $aerr == nil
 
 // The error document is object data too: it may only be returned under an authorization that covers its key.
 //@ func (*Server).serveErrorDocument
